@@ -38,6 +38,7 @@ class State:
         self.calls = []  # trace of public calls (function name, arg digest, outcome)
         self.trace = False
         self.recent_results = []  # weakrefs of kernel results
+        self.recent_public = []  # weakrefs of arrays returned by top-level public calls
         self.boys = []  # observed (order max, x min, x max)
         self.fp_events = {}
         self.depth = 0
@@ -148,27 +149,35 @@ def digest(o, _depth=0, rep=False):
     return ("val", repr(o))
 
 
-def arrays_of(o, _depth=0, out=None):
+def arrays_of(o, _depth=0, out=None, caller_owned=False):
+    """every ndarray reachable from ``o``; with ``caller_owned`` only the arrays a caller handed over: for a shell its
+    centre, coefficients and exponents, not state the shell derives itself (norm_cont, private tables), which the shell's own
+    methods may legitimately rewrite in place"""
     if out is None:
         out = []
     if isinstance(o, np.ndarray):
         out.append(o)
+    elif caller_owned and _is_shell(o):
+        for k in ("coord", "coeffs", "exps"):
+            x = getattr(o, k, None)
+            if isinstance(x, np.ndarray):
+                out.append(x)
     elif isinstance(o, (list, tuple)):
         for x in o:
-            arrays_of(x, _depth + 1, out)
+            arrays_of(x, _depth + 1, out, caller_owned)
     elif isinstance(o, dict):
         for x in o.values():
-            arrays_of(x, _depth + 1, out)
+            arrays_of(x, _depth + 1, out, caller_owned)
     elif hasattr(o, "__dict__") and not callable(o) and _depth < 6:
         for x in vars(o).values():
-            arrays_of(x, _depth + 1, out)
+            arrays_of(x, _depth + 1, out, caller_owned)
     return out
 
 
 def freeze(o):
     """write-protect sentinel: every reachable ndarray becomes read-only (returns the count)."""
     n = 0
-    for a in arrays_of(o):
+    for a in arrays_of(o, caller_owned=True):
         if a.flags.writeable:
             try:
                 a.flags.writeable = False
@@ -202,6 +211,27 @@ def _make_public_contract(fn, name):
                     STATE.fire("M-alias", "C19", name, "returned array shares memory with an argument")
                     break
             STATE.count("M-alias")
+            if STATE.depth == 1 and result.size:
+                # M-fresh (public): an array handed to the caller belongs to the caller. If it is, or overlaps, an array that
+                # an EARLIER top-level call returned and that is still alive (held by the caller or by the library), the two
+                # results are one piece of memory: writing to one changes the other, and a later call may hand out a
+                # modified array. Dead weak references (arrays the caller dropped) are skipped, so reuse of freed memory by
+                # the allocator cannot fire.
+                alive = []
+                for w in STATE.recent_public:
+                    r = w()
+                    if r is not None:
+                        alive.append(w)
+                        if r is result:
+                            STATE.fire("M-fresh", "C19", name, "the very same array object was returned by an earlier public call and is handed out again")
+                        elif np.may_share_memory(result, r) and np.shares_memory(result, r):
+                            STATE.fire("M-fresh", "C19", name, "returned array shares memory with an array returned by an earlier public call")
+                try:
+                    alive.append(weakref.ref(result))
+                except TypeError:
+                    pass
+                STATE.recent_public = alive[-48:]
+                STATE.count("M-fresh-public")
             if result.ndim >= 2 and result.shape[0] == result.shape[1] and result.size:
                 sc = float(np.abs(result).max()) if np.all(np.isfinite(result)) else np.inf
                 if np.isfinite(sc) and (name in SYMMETRIC or name in HERMITIAN):
